@@ -75,6 +75,15 @@ public:
       if (prev)
       {
         auto delta = prev->Diff(*aggr);
+        // The same attribute set may already have been reported during this collection (several
+        // callbacks on one instrument, or one callback registered twice). Fold this difference
+        // into the pending one instead of replacing it, so that the deltas handed to the temporal
+        // storage still add up to the last reported value.
+        auto pending = delta_hash_map_->Get(measurement.first);
+        if (pending)
+        {
+          delta = pending->Merge(*delta);
+        }
         // store received value in cumulative map, and the diff in delta map (to pass it to temporal
         // storage)
         cumulative_hash_map_->Set(measurement.first, std::move(aggr));
